@@ -9,6 +9,7 @@
 
 mod binary;
 mod chain;
+mod long;
 mod model;
 mod special;
 mod unary;
@@ -18,6 +19,9 @@ use mc_core::{self as mc, json, ExtraResult, Harness, Job, Plan, Tier};
 use model::FillSet;
 
 struct C03;
+
+/// Shortest row / column / vector that belongs to the long family (round 2).
+pub const LONG_MIN: usize = 15;
 
 /// Shapes of the lattice, simplest (fewest entries) first.
 fn lattice(max: usize) -> Vec<(usize, usize)> {
@@ -44,6 +48,8 @@ struct Bounds {
     vec_pair: usize,
     softmax_len: usize,
     var_n: usize,
+    /// lengths of the long family (round 2)
+    long: Vec<usize>,
     e2_depth: (usize, usize),
     e2_signs: Vec<usize>,
     e2_stack_limit: usize,
@@ -66,6 +72,7 @@ fn bounds(tier: Tier) -> Bounds {
             vec_pair: 16,
             softmax_len: 7,
             var_n: 12,
+            long: long::LONG_QUICK.iter().chain(long::LONG_THOROUGH.iter()).copied().collect(),
             e2_depth: (5, 5),
             e2_signs: vec![2, 0],
             e2_stack_limit: 12,
@@ -84,6 +91,7 @@ fn bounds(tier: Tier) -> Bounds {
             vec_pair: 8,
             softmax_len: 5,
             var_n: 9,
+            long: long::LONG_QUICK.to_vec(),
             e2_depth: (4, 3),
             e2_signs: vec![2],
             e2_stack_limit: 12,
@@ -167,17 +175,76 @@ impl Harness for C03 {
                 }
             }
         }
+        // long family (round 2): vectors and rows / columns of length N >= 15
+        // (development aid for mutant comparisons: C03_NO_LONG=1 plans the round-1 space only)
+        let no_long = std::env::var("C03_NO_LONG").is_ok();
+        if no_long {
+            eprintln!("[c03] C03_NO_LONG is set: the long family (round 2) is NOT enumerated");
+        }
+        let long_lengths: Vec<usize> = if no_long { Vec::new() } else { b.long.clone() };
+        for w in WIDTHS {
+            for &n in &long_lengths {
+                jobs.push(Job::new(format!("long-vec-{}-n{}", w, n), json!({"kind": "vec", "w": w, "n": n, "fills": "litewide", "long": true})));
+                jobs.push(Job::new(format!("long-vecpair-{}-n{}", w, n), json!({"kind": "vecpair", "w": w, "n": n, "long": true})));
+                jobs.push(Job::new(format!("long-reshape-{}-n{}", w, n), json!({"kind": "longreshape", "w": w, "n": n, "long": true})));
+                for orient in 0..3 {
+                    if orient == 2 && n % 2 == 1 {
+                        continue;
+                    }
+                    jobs.push(Job::new(format!("long-softmax-{}-n{}-o{}", w, n, orient), json!({"kind": "longsoftmax", "w": w, "len": n, "orient": orient, "long": true})));
+                }
+                for kind in ["vec", "axis0", "axis1"] {
+                    jobs.push(Job::new(format!("long-var-{}-{}-n{}", kind, w, n), json!({"kind": "longvariance", "vkind": kind, "w": w, "n": n, "long": true})));
+                }
+            }
+        }
+        for &n in &long_lengths {
+            for (r, c) in long::unary_shapes(n) {
+                for w in WIDTHS {
+                    for g in unary::GROUPS {
+                        let fills = if g == "struct" { "codedwide" } else { "litewide" };
+                        jobs.push(Job::new(format!("long-un-{}-{}-{}x{}", g, w, r, c), json!({"kind": "unary", "group": g, "w": w, "r": r, "c": c, "fills": fills, "long": true})));
+                    }
+                }
+            }
+        }
+        for (r, c) in if no_long { Vec::new() } else { long::pair_shapes(&b.long) } {
+            for w in WIDTHS {
+                jobs.push(Job::new(format!("long-pair-{}-{}x{}", w, r, c), json!({"kind": "binary", "w": w, "r": r, "c": c, "long": true})));
+            }
+        }
         let t = tier.is_thorough();
         // every job carries the tier and the seed, so that a replay file is self-contained
         for j in jobs.iter_mut() {
             j.params["t"] = json!(t);
             j.params["seed"] = json!(seed % 8);
         }
+        let long_floors: Vec<(&'static str, u64)> = if no_long {
+            Vec::new()
+        } else {
+            vec![
+                ("long_family", 600_000),
+                ("long_vec", 12_000),
+                ("long_vecpair", 7_000),
+                ("long_unary_matrix", 140_000),
+                ("long_pair", 300_000),
+                ("long_product_inner", 6_000),
+                ("long_product_outer", 12_000),
+                ("long_dot", 250),
+                ("long_stack", 7_000),
+                ("long_binary_elementwise", 3_000),
+                ("long_reshape_compatible", 1_300),
+                ("long_flatten", 400),
+                ("long_take_full_length", 1_400),
+                ("long_softmax", 90_000),
+                ("long_variance", 55_000),
+            ]
+        };
         Plan {
             jobs,
             budget_s: if t { 2400 } else { 40 },
             case_deadline_ms: 20_000,
-            floors: vec![
+            floors: [vec![
                 ("incompatible_rejected", 1_000_000),
                 ("reshape_compatible", 20_000),
                 ("transpose_nonsquare", 4_000),
@@ -204,7 +271,8 @@ impl Harness for C03 {
                 ("e2_state_1xN", 10_000),
                 ("e2_state_Nx1", 10_000),
                 ("e2_state_nonsquare", 20_000),
-            ],
+            ], long_floors]
+            .concat(),
             bounds: json!({
                 "widths": "f64 and f32",
                 "one_operand_lattice": format!("every shape 1<=r,c<={} x 3 operation groups x fills {{4 index-coded sign patterns, 3 all-equal, 10 large-magnitude +-{{400,745,1000,1e6}}, 3 offset fills mu+s*{{-1,0,1}}, every {{0,1,-1}} fill when r*c<={} (structural group: <={})}} x every slice range, every reshape target (all (r',c')<=r*c+1 when r*c<=16), every take index tuple of length<=3 on both axes, 4 scalars, 6 powers, 3 thresholds, 7 norms, both axes", b.lat, b.sigma_other, b.sigma_struct),
@@ -213,6 +281,7 @@ impl Harness for C03 {
                 "vectors": format!("Vec<T> of every length 1..{} (full fills), lengths {:?} (6 fills); every ordered pair of lengths <={}", b.vec_n, b.vec_big, b.vec_pair),
                 "softmax": format!("every tuple of length<={} over {{0,+-1,+-400,+-745,+-1000}} as 1xN, Nx1 and 2x(N/2)", b.softmax_len),
                 "variance": format!("mu + sigma*s for every s in {{0,1,-1}}^n, 2<=n<={}, mu/sigma in {:?} (f64) / {:?} (f32), sigma in {:?}; Vec<T> and both axes of MatrixStats", b.var_n, special::offsets::<f64>(), special::offsets::<f32>(), special::SIGMAS),
+                "long_family": format!("round 2 - lengths N in {:?}: Vec<T> of length N (6 fills: 4 wide-index-coded sign patterns, large-magnitude, offset) x every vector operation, take = every single index, every pair (i,j) with j in {{0,i,N-1}}, 6 full-length index lists; every ordered pair of Vec lengths N x N' in {:?}; DenseMatrix 1xN, Nx1, 2xN, Nx2 x the 3 one-operand groups (slice ranges on the long axis: start<=2 or end>=N-2; take as for Vec; every reshape factorisation + near misses); every factorisation r x c of N x 4 signs x reshape to every factorisation and back / flatten / transpose+reshape; two operands: every left shape in {{1xN,Nx1,2xN,Nx2,3xN,Nx3}} + {:?} against the short partners and the six shapes of N' in {{N, pred N, succ N}} x 4 x 3-4 fills x 15 operations (wide index codes 1+512i+j and 2+2048i+3j); softmax: value a everywhere, b at one position, every (a,b) of the alphabet x every position x 1xN, Nx1, 2x(N/2); variance: mu+sigma*s for the 6+2N structured patterns s (3 phases of (0,1,-1), 2 phases of (1,-1), half/half, a single +1 / -1 at every position) x all offsets x sigmas x Vec / axis 0 / axis 1", b.long, long::vec_partners(&b.long), long::SMALL_PARTNERS),
                 "e2": format!("operation chains of depth<={} (f64) / {} (f32) from every index-coded shape <=2x3, 18 actions", b.e2_depth.0, b.e2_depth.1),
                 "seed": "VERIF_SEED selects the multiplier/offset applied to the index code and the softmax alphabet (8 variants; 0 = plain)",
             }),
@@ -279,6 +348,10 @@ impl Harness for C03 {
 fn fills_of(job: &Job) -> FillSet {
     if job.s("fills") == "lite" {
         FillSet::Lite
+    } else if job.s("fills") == "litewide" {
+        FillSet::LiteWide
+    } else if job.s("fills") == "codedwide" {
+        FillSet::CodedWide
     } else {
         FillSet::Full { sigma_max: job.u("sigma") }
     }
@@ -288,19 +361,35 @@ fn run_t<T: model::W>(job: &Job, seed: u64) {
     // the tier only influences bounds that are part of the job parameters or derivable from them
     let thorough = job.b("t");
     let b = bounds(if thorough { Tier::Thorough } else { Tier::Quick });
+    let long = job.params.get("long").and_then(|x| x.as_bool()).unwrap_or(false);
+    if long {
+        mc::count("long_family");
+        match job.kind() {
+            "unary" => mc::count("long_unary_matrix"),
+            "binary" => mc::count("long_pair"),
+            "vec" => mc::count("long_vec"),
+            "vecpair" => mc::count("long_vecpair"),
+            _ => {}
+        }
+    }
     match job.kind() {
         "unary" => {
             let shard = (job.params["shard"].as_u64().unwrap_or(0) as usize, job.params["shards"].as_u64().unwrap_or(1) as usize);
             unary::run::<T>(job.s("group"), job.u("r"), job.u("c"), fills_of(job), shard, seed)
         }
-        "binary" => binary::run::<T>(job.u("r"), job.u("c"), &pair_shapes(&b), seed),
+        "binary" if long => binary::run::<T>(job.u("r"), job.u("c"), &long::partner_shapes(job.u("r"), job.u("c"), &b.long), seed, true),
+        "binary" => binary::run::<T>(job.u("r"), job.u("c"), &pair_shapes(&b), seed, false),
         "vec" => {
             let shard = (job.params["shard"].as_u64().unwrap_or(0) as usize, job.params["shards"].as_u64().unwrap_or(1) as usize);
             vector::run_unary::<T>(job.u("n"), fills_of(job), shard, seed)
         }
-        "vecpair" => vector::run_binary::<T>(job.u("n"), b.vec_pair, seed),
+        "vecpair" if long => vector::run_binary::<T>(job.u("n"), &long::vec_partners(&b.long), seed),
+        "vecpair" => vector::run_binary::<T>(job.u("n"), &(1..=b.vec_pair).collect::<Vec<usize>>(), seed),
         "softmax" => special::softmax::<T>(job.u("len"), job.u("orient"), seed),
         "variance" => special::variance::<T>(job.s("vkind"), job.u("n")),
+        "longsoftmax" => special::softmax_long::<T>(job.u("len"), job.u("orient"), seed),
+        "longvariance" => special::variance_long::<T>(job.s("vkind"), job.u("n")),
+        "longreshape" => long::reshape::<T>(job.u("n"), seed),
         "chain" => chain::replay::<T>(job),
         k => panic!("unknown job kind {}", k),
     }
